@@ -33,5 +33,39 @@ git -C /repo checkout -- . ; git -C /repo clean -fdq -- . 2>/dev/null
 echo "check $id quick against the seeded change: exit=$q"
 grep -m3 -E "^(VIOLATION|INCONCLUSIVE|OK)" /tmp/sv-$tag.check.log
 grep -m1 -A3 "^  test=" /tmp/sv-$tag.check.log | cut -c1-400
-echo "$q" > $here/seeded/$tag/.quick_exit
+rm -f $here/seeded/$tag/.quick_exit
+python3 - "$id" "$tag" "$q" "$here" <<'PY'
+import json, sys, subprocess, os
+pid, tag, q, here = sys.argv[1:5]
+d = os.path.join(here, "seeded", tag)
+head = subprocess.run(["git", "-C", "/repo", "log", "--format=%h", "-1"], capture_output=True, text=True).stdout.strip()
+needs = os.environ.get("NEEDS", "")
+mp = os.path.join(d, "meta.json")
+old = {}
+if os.path.exists(mp):
+    old = json.load(open(mp))
+meta = {
+  "property": pid,
+  "breaks": os.environ.get("BREAKS", old.get("breaks", "")),
+  "needs_to_manifest": needs or old.get("needs_to_manifest", ""),
+  "written_by": "sub-agent that saw only the property text and a scratch worktree of /repo",
+  "confirmed_at_repo_commit": head,
+  "confirmation": {
+    "ran": [
+      "git worktree add --detach /tmp/sv-%s HEAD (fresh scratch worktree, removed afterwards)" % tag,
+      "go test ./seeddemo/... without the change: pass (exit 0)",
+      "git apply patch.diff; go build ./...: exit 0",
+      "go test -mod=mod -vet=off -count=1 <all packages except seeddemo>: exit 0 (existing suite passes with the change)",
+      "go test ./seeddemo/... with the change: FAIL (exit 1)",
+    ],
+  },
+  "check_result": {
+    "command": "git -C /repo apply seeded/%s/patch.diff && ./verif check %s quick ; git -C /repo checkout -- ." % (tag, pid),
+    "quick_exit": int(q),
+    "detected": q == "1",
+  },
+  "history": old.get("history", []),
+}
+json.dump(meta, open(mp, "w"), indent=1)
+PY
 rm -f /tmp/sv-$tag.*.log
